@@ -275,10 +275,13 @@ def agnostic_domain(case):
   import jax.numpy as jnp
   from fedjax.algorithms import agnostic_fed_avg as afa
   loss, sizes, nd = case['loss'], case['sizes'], case['num_domains']
-  per_ex, _, _, _, _ = impl(loss, 'none')
-  key = ('afa', loss, nd, case.get('backend'))
+  reg = case.get('reg', 'none')
+  per_ex, regz, _, _, _ = impl(loss, reg)
+  key = ('afa', loss, nd, case.get('backend'), reg)
   if key not in _CACHE:
-    _CACHE[key] = _with_backend(case.get('backend'), lambda: afa.create_domain_metrics_for_each_client(per_ex, nd))
+    _CACHE[key] = _with_backend(case.get('backend'), lambda: (
+        afa.create_domain_metrics_for_each_client(per_ex, nd) if reg == 'none' else
+        afa.create_domain_metrics_for_each_client(per_ex, nd, regz)))
   fec = _CACHE[key]
   seed = case.get('seed', 0)
   exs = [data(n, seed, off=i) for i, n in enumerate(sizes)]
@@ -295,8 +298,9 @@ def agnostic_domain(case):
       for i, ex in enumerate(exs):
         o = out[b'c%d' % i]
         l, _ = ref_losses(loss, p, ex)
-        wl = np.array([l[ex['domain_id'] == d].sum() for d in range(nd)])
         wn = np.array([float((ex['domain_id'] == d).sum()) for d in range(nd)])
+        # with a regularizer the per-domain MEAN loss is mean + regularizer: the sums carry it once per real example
+        wl = np.array([l[ex['domain_id'] == d].sum() for d in range(nd)]) + (ref_reg(reg, p)[0] * wn if reg != 'none' else 0.0)
         g = np.asarray(o['domain_loss'], np.float64)
         require(bool(np.all(np.isfinite(g))) and bool(np.all(np.abs(g - wl) <= 5e-5 * (1 + np.abs(wl)))),
                 'client %d: per-domain loss sums' % i, wl.tolist(), g.tolist(), case=nc)
@@ -469,6 +473,7 @@ def plan(ctx):
                                 for t in ([3], [2, 0, 3], [0, 0], [5, 1])], chunk=1)
   ctx.pmap('agnostic_domain', [{'loss': l, 'sizes': t, 'num_domains': nd, 'seed': s} for l in ('sq', 'abs')
                                for t in tuples for nd in (2, 3)] +
+           [{'loss': 'sq', 'sizes': t, 'num_domains': 2, 'seed': s, 'reg': r} for r in ('l2', 'l2c') for t in tuples] +
            [{'loss': 'sq', 'sizes': t, 'num_domains': 2, 'seed': s, 'backend': be} for be in bes for t in ptuples], chunk=2)
   ctx.pmap('hyp_losses', [{'loss': l, 'reg': r, 'sizes': t, 'seed': s} for l in ('sq', 'abs') for r in regs
                           for t in ([[3], [2, 0, 3], [5, 1]] if not th else tuples)] +
